@@ -83,6 +83,9 @@ func genWorld(rng *Rng, g genCfg) (*World, []OpSpec) {
 	}
 	for i := range w.Rpkgs {
 		nv := 1 + rng.Intn(4)
+		if rng.Chance(7) {
+			nv = 0 // the registry knows the package but offers no version
+		}
 		vp := rngPerm(rng, len(verPool))
 		for j := 0; j < nv; j++ {
 			rv := RegVer{V: verPool[vp[j]], Source: remoteSrcString(w.Pkgs[rng.Intn(np)].Addr, rng.Pick(subPool))}
@@ -95,7 +98,7 @@ func genWorld(rng *Rng, g genCfg) (*World, []OpSpec) {
 			}
 			w.Rpkgs[i].Versions = append(w.Rpkgs[i].Versions, rv)
 		}
-		if rng.Chance(12) && nv < len(verPool) {
+		if rng.Chance(12) && nv > 0 && nv < len(verPool) {
 			// metadata-only duplicate of an offered version
 			base := w.Rpkgs[i].Versions[rng.Intn(nv)]
 			if !strings.Contains(base.V, "+") {
@@ -192,9 +195,9 @@ func genWorld(rng *Rng, g genCfg) (*World, []OpSpec) {
 			ops = append(ops, OpSpec{Kind: "registry", Addr: regSrcString(rp.Addr, rng.Pick(subPool)), Set: pickSet(rp), Finder: f})
 		default:
 			rp := w.Rpkgs[rng.Intn(nr)]
-			v := rp.Versions[rng.Intn(len(rp.Versions))].V
-			if rng.Chance(15) {
-				v = rng.Pick(verPool)
+			v := rng.Pick(verPool)
+			if len(rp.Versions) > 0 && !rng.Chance(15) {
+				v = rp.Versions[rng.Intn(len(rp.Versions))].V
 			}
 			vv := versions.MustParseVersion(v)
 			addr := rp.Addr + "@" + vv.String()
@@ -1163,6 +1166,28 @@ func runBundleStream(o *Opts) {
 		limit := 3
 		if o.Tier == "thorough" || o.Focus {
 			limit = 24
+		}
+		if !bb.obs.Timeout && !noErrors(&bb.obs) {
+			// the same failing build observed by a caller without a diagnostics tracer / without any tracer:
+			// what the caller is told and what the builder refuses afterwards must not depend on who listens
+			for mode := 1; mode <= 2; mode++ {
+				dm := filepath.Join(d, fmt.Sprintf("mode%d", mode))
+				os.MkdirAll(dm, 0o755)
+				bm := runBuildMode(w, ops, dm, nil, nil, 20*time.Second, mode)
+				if len(bm.obs.Outcomes) == len(bb.obs.Outcomes) {
+					for j := range bm.obs.Outcomes {
+						a, b := bb.obs.Outcomes[j], bm.obs.Outcomes[j]
+						if a.Kind != b.Kind || a.NErrors != b.NErrors {
+							vs = append(vs, viol("C12", fmt.Sprintf("operation %d ends as %s (%d errors) with a full tracer and as %s (%d errors) with tracer mode %d: failures must be reported and the builder refused afterwards whoever listens", j, a.Kind, a.NErrors, b.Kind, b.NErrors, mode)))
+							break
+						}
+					}
+				}
+				if bm.obs.Bundle != nil {
+					vs = append(vs, viol("C12", fmt.Sprintf("a bundle came out of a build that reported an error (tracer mode %d)", mode)))
+				}
+				os.RemoveAll(dm)
+			}
 		}
 		if !bb.obs.Timeout {
 			pv, runs := oracleOrder(w, ops, bb, d, limit, rng.Fork())
